@@ -684,7 +684,18 @@ class StateNode(Generic[TContext, TEvent]):
                 history_kind = "shallow"
             self.history = history_kind
         #: Default target used when a history state has nothing recorded yet.
-        self.target_str: Optional[str] = config.get("target")
+        default_target = config.get("target")
+        if (
+            self.type == "history"
+            and default_target is not None
+            and not isinstance(default_target, str)
+        ):
+            raise InvalidConfigError(
+                f"History state '{self.id}' has an invalid default 'target' "
+                f"of type '{type(default_target).__name__}'. Expected a "
+                f"state reference string."
+            )
+        self.target_str: Optional[str] = default_target
 
         self.entry = self._parse_actions(config.get("entry"))
         self.exit = self._parse_actions(config.get("exit"))
